@@ -15,11 +15,15 @@
    * words, addresses, keys and code are numbers; code is a program id in a table (0 = no code);
    * the native balance of an address (a storage slot of the bound token contract) is the map [bal];
      the token contract itself exists throughout and is not part of the universe;
-   * gas is not modelled: programs are run with enough gas, a failing frame fails by REVERT, by the
-     INVALID opcode, by write protection, by an insufficient balance or by an address collision;
+   * gas is not computed: WHERE a frame runs out of gas is taken from the list [oracle] (one entry per frame
+     that runs code: 0 = it does not, 1+k = it dies after k actions, 1000 = a creation whose code deposit
+     cannot be paid; one entry per precompile run: non-zero = it fails). The theorems hold for every such
+     list, i.e. for out-of-gas striking at any action boundary of any frame;
    * the address of a created contract (keccak of sender/nonce or sender/salt/code) is taken from the
-     list [oracle] in execution order;
-   * precompiled contracts are outside the address universe. *)
+     same list, in execution order;
+   * two precompiled contracts are in the universe: 21 (identity, succeeds) and 22 (blake2F, fails on empty input);
+   * the miner registry and the refund escrow touched by STAKE/UNSTAKE/UNSTAKEALL are the storage of the
+     reserved accounts 900 and 901 (as in the code: SetData on ValidatorDBAddress / the refund address). *)
 From Coq Require Import List NArith Bool.
 Import ListNotations.
 Local Open Scope N_scope.
@@ -220,11 +224,18 @@ Inductive action :=
 | ALog (topic : N)
 | ATstore (k : key) (v : N)
 | ACall (kind : callkind) (target : addr) (value : N)
-| ACreate (value : N) (init : N).            (* CREATE and CREATE2: the address comes from the oracle *)
+| ACreate (value : N) (init : N)             (* CREATE and CREATE2: the address comes from the oracle *)
+| ACallCreated (kind : callkind) (value : N) (* call the contract this frame created last (address 0 if none / failed) *)
+| AStake (t : N)                             (* custom opcodes; amounts in whole tokens *)
+| AUnstake (t : N)
+| AUnstakeAll
+| AAuth (inv authority : addr)               (* AUTH with a signature of [authority] valid for invoker [inv] *)
+| AAuthCall (n : N) (target : addr) (value : N).
 
 Inductive endmode :=
 | EStop
 | EReturn (c : N)                            (* in creation code: deploy program c *)
+| EReturnBig                                 (* RETURN of more than MaxCodeSize bytes *)
 | ERevert
 | EInvalid
 | ESelfdestruct (beneficiary : addr).
@@ -238,35 +249,76 @@ Inductive outcome :=
 | OOk
 | ORevert                                    (* ErrExecutionReverted *)
 | OErr (code : N)                            (* any other EVM error: the frame is undone and its gas is gone *)
+| OCodeStore                                 (* ErrCodeStoreOutOfGas: evm.create does NOT revert on it *)
 | OFuel                                      (* the model ran out of fuel (excluded by the theorems) *)
-| OPanic.                                    (* RevertToSnapshot would panic / the oracle is exhausted *)
+| OPanic.                                    (* RevertToSnapshot would panic / no address left in the oracle *)
 
 Definition err_depth := 1.
 Definition err_balance := 2.
 Definition err_write_protection := 3.
 Definition err_invalid := 4.
 Definition err_collision := 5.
+Definition err_oog := 6.
+Definition err_codesize := 7.
+Definition err_precompile := 8.
+Definition err_custom := 9.
 
-Record ctx := mkCtx { self : addr; static : bool; depth : N }.
+Record ctx := mkCtx { self : addr; static : bool; depth : N; origin : addr }.
+
+(* per-frame interpreter state that is not in the StateDB *)
+Record loc := mkLoc { l_created : addr; l_auth : option addr; l_fate : option nat }.
 
 Definition rres : Type := outcome * list log * state.
 
-(* jump_table.go: the writes flag of the opcode an action compiles to *)
+(* jump_table.go / eips.go: the writes flag of the opcode an action compiles to *)
 Definition writes_flag (a : action) : bool :=
   match a with
   | ASstore _ _ | ALog _ | ACreate _ _ => true
-  | ATstore _ _ | ACall _ _ _ => false
+  | _ => false
   end.
 Definition fin_writes (f : endmode) : bool := match f with ESelfdestruct _ => true | _ => false end.
 
 (* interpreter.go:205-214 *)
 Definition refused_static (a : action) : bool :=
-  writes_flag a || match a with ACall KCall _ v => negb (v =? 0) | _ => false end.
+  writes_flag a || match a with
+                   | ACall KCall _ v | ACallCreated KCall v => negb (v =? 0)
+                   | _ => false
+                   end.
+
+(* the opcodes registered by doProposal014 without the writes flag that change the state *)
+Definition is_custom (a : action) : bool :=
+  match a with AStake _ | AUnstake _ | AUnstakeAll | AAuthCall _ _ _ => true | _ => false end.
 
 Definition ret_code (p : option prog) : N :=
   match p with Some (mkProg _ (EReturn c)) => c | _ => 0 end.
+Definition ret_big (p : option prog) : bool :=
+  match p with Some (mkProg _ EReturnBig) => true | _ => false end.
 
 Definition max_depth := 1024.
+Definition wrap64 (n : N) : N := n mod 18446744073709551616.
+
+Definition precompile (a : addr) : option bool :=
+  if a =? 21 then Some true else if a =? 22 then Some false else None.
+
+Definition with_oracle (s : state) (o : list addr) : state :=
+  mkState (dat s) (journal s) (revs s) (next_rev s) (thash s) (txindex s) o.
+
+Definition pop_oracle (s : state) : N * state :=
+  match oracle s with
+  | [] => (0, s)
+  | x :: r => (x, with_oracle s r)
+  end.
+
+Definition fate_of (x : N) : option nat :=
+  if (x =? 0) || (x =? 1000) then None else Some (N.to_nat (x - 1)).
+
+(* miner registry (ValidatorDBAddress) and refund escrow as storage of reserved accounts *)
+Definition REG := 900.
+Definition ESC := 901.
+Definition unit18 := 1000000000000000000.
+Definition min_stake := 400.
+Definition reg_stake (d : data) (a : addr) : N := state_of d REG (2 * a).
+Definition reg_status (d : data) (a : addr) : N := state_of d REG (2 * a + 1).   (* 0 none, 1 normal, 2 abort *)
 
 Section Exec.
   Variable progs : list prog.
@@ -287,39 +339,62 @@ Section Exec.
            end
     end.
 
+  (* run(evm, contract, ...): a precompile (its failure comes from the table or from the oracle: out of gas)
+     or the interpreter on the code of [codeaddr] *)
+  Definition run_target (cx' : ctx) (codeaddr : addr) (s : state) : rres :=
+    match precompile codeaddr with
+    | Some ok => let '(f, s') := pop_oracle s in
+                 ((if ok && (f =? 0) then OOk else OErr err_precompile), [], s')
+    | None => rec cx' (code_of (dat s) codeaddr) s
+    end.
+
+  (* evm.Call / evm.AuthCall after the Snapshot: existence, CreateAccount, Transfer from [payer], run *)
+  Definition call_body (cx : ctx) (id : N) (payer target : addr) (value : N) (s1 : state) : rres :=
+    let go (s2 : state) : rres :=
+      let s3 := push (transfer payer target value) s2 in
+      match precompile target with
+      | Some _ => finish_call id true (run_target (mkCtx target (static cx) (depth cx + 1) (origin cx)) target s3)
+      | None =>
+          if code_of (dat s3) target =? 0 then (OOk, [], s3)
+          else finish_call id true (run_target (mkCtx target (static cx) (depth cx + 1) (origin cx)) target s3)
+      end in
+    if exists_of (dat s1) target then go s1
+    else match precompile target with
+         | None => if value =? 0 then (OOk, [], s1) else go (push (get_or_new target) s1)
+         | Some _ => go (push (get_or_new target) s1)
+         end.
+
   (* evm.Call / CallCode / DelegateCall / StaticCall as invoked by the opcode (or by the transaction, depth 0) *)
   Definition do_call (cx : ctx) (kind : callkind) (target : addr) (value : N) (s : state) : rres :=
     if max_depth <? depth cx then (OErr err_depth, [], s)
     else match kind with
     | KCall =>
         if negb (value =? 0) && (bal (dat s) (self cx) <? value) then (OErr err_balance, [], s)
-        else
-          let id := fst (snapshot s) in
-          let s1 := snd (snapshot s) in
-          let go (s2 : state) : rres :=
-            let s3 := push (transfer (self cx) target value) s2 in
-            let c := code_of (dat s3) target in
-            if c =? 0 then (OOk, [], s3)
-            else finish_call id true (rec (mkCtx target (static cx) (depth cx + 1)) c s3) in
-          if exists_of (dat s1) target then go s1
-          else if value =? 0 then (OOk, [], s1)
-          else go (push (get_or_new target) s1)
+        else call_body cx (fst (snapshot s)) (self cx) target value (snd (snapshot s))
     | KCallCode =>
         if bal (dat s) (self cx) <? value then (OErr err_balance, [], s)
         else
           let id := fst (snapshot s) in
           let s1 := snd (snapshot s) in
-          finish_call id false (rec (mkCtx (self cx) (static cx) (depth cx + 1)) (code_of (dat s1) target) s1)
+          finish_call id false (run_target (mkCtx (self cx) (static cx) (depth cx + 1) (origin cx)) target s1)
     | KDelegate =>
         let id := fst (snapshot s) in
-          let s1 := snd (snapshot s) in
-        finish_call id true (rec (mkCtx (self cx) (static cx) (depth cx + 1)) (code_of (dat s1) target) s1)
+        let s1 := snd (snapshot s) in
+        finish_call id true (run_target (mkCtx (self cx) (static cx) (depth cx + 1) (origin cx)) target s1)
     | KStatic =>
         let id := fst (snapshot s) in
-          let s1 := snd (snapshot s) in
+        let s1 := snd (snapshot s) in
         let s2 := push (add_balance target 0) s1 in
-        finish_call id true (rec (mkCtx target true (depth cx + 1)) (code_of (dat s2) target) s2)
+        finish_call id true (run_target (mkCtx target true (depth cx + 1) (origin cx)) target s2)
     end.
+
+  (* evm.AuthCall: value and gas are paid by the transaction origin, the authority's nonce is bumped before the Snapshot *)
+  Definition do_authcall (cx : ctx) (authority target : addr) (value : N) (s : state) : rres :=
+    if max_depth <? depth cx then (OErr err_depth, [], s)
+    else if negb (value =? 0) && (bal (dat s) (origin cx) <? value) then (OErr err_balance, [], s)
+    else
+      let s0 := push (set_nonce authority (wrap64 (nonce_of (dat s) authority + 1))) s in
+      call_body cx (fst (snapshot s0)) (origin cx) target value (snd (snapshot s0)).
 
   (* evm.create *)
   Definition do_create (cx : ctx) (value : N) (init : N) (s : state) : rres :=
@@ -328,8 +403,8 @@ Section Exec.
     else match oracle s with
     | [] => (OPanic, [], s)
     | address :: orc =>
-        let s0 := mkState (dat s) (journal s) (revs s) (next_rev s) (thash s) (txindex s) orc in
-        let s1 := push (set_nonce (self cx) (nonce_of (dat s0) (self cx) + 1)) s0 in
+        let s0 := with_oracle s orc in
+        let s1 := push (set_nonce (self cx) (wrap64 (nonce_of (dat s0) (self cx) + 1))) s0 in
         let s2 := push (acl_add address) s1 in
         if negb (nonce_of (dat s2) address =? 0) || negb (code_of (dat s2) address =? 0)
         then (OErr err_collision, [], s2)
@@ -339,9 +414,13 @@ Section Exec.
           let s4 := push (get_or_new address) s3 in
           let s5 := push (set_nonce address 1) s4 in
           let s6 := push (transfer (self cx) address value) s5 in
-          let '(o, l, s7) := rec (mkCtx address (static cx) (depth cx + 1)) init s6 in
+          let deposit_fails := hd 0 (oracle s6) =? 1000 in
+          let '(o, l, s7) := rec (mkCtx address (static cx) (depth cx + 1) (origin cx)) init s6 in
           match o with
-          | OOk => (OOk, l, push (set_code address (ret_code (lookup progs init))) s7)
+          | OOk =>
+              if ret_big (lookup progs init) then finish_call id true (OErr err_codesize, l, s7)
+              else if deposit_fails then (OCodeStore, l, s7)          (* no RevertToSnapshot on this error *)
+              else (OOk, l, push (set_code address (ret_code (lookup progs init))) s7)
           | _ => finish_call id true (o, l, s7)
           end
     end.
@@ -352,51 +431,119 @@ Section Exec.
     let s2 := push (add_balance b (bal (dat s1) (self cx))) s1 in
     push (suicide (self cx)) s2.
 
+  (* opStake -> MinerManagerImpl.AddStake *)
+  Definition do_stake (cx : ctx) (t : N) (s : state) : state :=
+    let a := self cx in
+    if reg_status (dat s) a =? 0 then s
+    else if t =? 0 then s
+    else if bal (dat s) a <? t * unit18 then s
+    else
+      let st := reg_stake (dat s) a + t in
+      let status := if min_stake <? st then 1 else reg_status (dat s) a in
+      let s1 := push (sub_balance a (t * unit18)) s in
+      let s2 := push (set_state REG (2 * a) st) s1 in
+      push (set_state REG (2 * a + 1) status) s2.
+
+  (* GetRefundStake for a contract account: the miner entry stays, with status abort below the minimum *)
+  Definition take_stake (a : addr) (money : N) (s : state) : state :=
+    let left := reg_stake (dat s) a - money in
+    let s1 := push (set_state REG (2 * a) left) s in
+    if left <? min_stake then push (set_state REG (2 * a + 1) 2) s1 else s1.
+
+  Definition escrow_add (who : addr) (v : N) (s : state) : state :=
+    push (set_state ESC (1000 + who) (state_of (dat s) ESC (1000 + who) + v)) s.
+
+  (* opUnStake: the refund goes to the transaction origin *)
+  Definition do_unstake (cx : ctx) (t : N) (s : state) : state :=
+    let a := self cx in
+    if reg_status (dat s) a =? 0 then s
+    else if reg_stake (dat s) a <? t then s
+    else escrow_add (origin cx) (t * unit18) (take_stake a t s).
+
+  (* opUnStakeAll: an error (the frame fails) without a miner; the refund goes to the miner's account *)
+  Definition do_unstakeall (cx : ctx) (s : state) : option state :=
+    let a := self cx in
+    if reg_status (dat s) a =? 0 then None
+    else let m := reg_stake (dat s) a in Some (escrow_add a (m * unit18) (take_stake a m s)).
+
   Definition finish (cx : ctx) (f : endmode) (clogs : list log) (s : state) : rres :=
     if static cx && fin_writes f then (OErr err_write_protection, [], s)
     else match f with
-    | EStop | EReturn _ => (OOk, clogs, s)
+    | EStop | EReturn _ | EReturnBig => (OOk, clogs, s)
     | ERevert => (ORevert, clogs, s)
     | EInvalid => (OErr err_invalid, [], s)
     | ESelfdestruct b => (OOk, clogs, do_selfdestruct cx b s)
     end.
 
+  Definition tick (lc : loc) : loc :=
+    mkLoc (l_created lc) (l_auth lc) (match l_fate lc with Some (S k) => Some k | x => x end).
+
+  (* the result of a sub-frame seen by the frame that issued it *)
+  Definition after_sub (r : rres) (k : list log -> state -> rres) (clogs : list log) : rres :=
+    let '(o, lg, s') := r in
+    match o with
+    | OFuel => (OFuel, [], s')
+    | OPanic => (OPanic, [], s')
+    | _ => k (clogs ++ lg) s'
+    end.
+
   (* the interpreter loop over the straight-line program *)
-  Fixpoint run_acts (cx : ctx) (l : list action) (f : endmode) (clogs : list log) (s : state) : rres :=
+  Fixpoint run_acts (cx : ctx) (lc : loc) (l : list action) (f : endmode) (clogs : list log) (s : state) : rres :=
+    match l_fate lc with
+    | Some O => (OErr err_oog, [], s)                 (* out of gas here *)
+    | _ =>
     match l with
     | [] => finish cx f clogs s
     | a :: rest =>
+        let lc := tick lc in
         if static cx && refused_static a then (OErr err_write_protection, [], s)
         else match a with
-        | ASstore k v => run_acts cx rest f clogs (push (set_state (self cx) k v) s)
+        | ASstore k v => run_acts cx lc rest f clogs (push (set_state (self cx) k v) s)
         | ALog t =>
             let lg := mkLog (self cx) t (thash s) (txindex s) (logsize (dat s)) in
-            run_acts cx rest f (clogs ++ [lg]) (push (add_log (thash s) lg) s)
+            run_acts cx lc rest f (clogs ++ [lg]) (push (add_log (thash s) lg) s)
         | ATstore k v =>
             if static cx then (OErr err_write_protection, [], s)       (* opTstore guards itself *)
-            else run_acts cx rest f clogs (push (set_transient (self cx) k v) s)
+            else run_acts cx lc rest f clogs (push (set_transient (self cx) k v) s)
         | ACall kind target value =>
-            let '(o, lg, s') := do_call cx kind target value s in
-            match o with
-            | OFuel => (OFuel, [], s')
-            | OPanic => (OPanic, [], s')
-            | _ => run_acts cx rest f (clogs ++ lg) s'
-            end
+            after_sub (do_call cx kind target value s) (run_acts cx lc rest f) clogs
+        | ACallCreated kind value =>
+            after_sub (do_call cx kind (l_created lc) value s) (run_acts cx lc rest f) clogs
         | ACreate value init =>
             let '(o, lg, s') := do_create cx value init s in
-            match o with
-            | OFuel => (OFuel, [], s')
-            | OPanic => (OPanic, [], s')
-            | _ => run_acts cx rest f (clogs ++ lg) s'
+            let created := match o with
+                           | OOk => match oracle s with x :: _ => x | [] => 0 end
+                           | _ => 0
+                           end in
+            after_sub (o, lg, s') (run_acts cx (mkLoc created (l_auth lc) (l_fate lc)) rest f) clogs
+        | AStake t => run_acts cx lc rest f clogs (do_stake cx t s)
+        | AUnstake t => run_acts cx lc rest f clogs (do_unstake cx t s)
+        | AUnstakeAll =>
+            match do_unstakeall cx s with
+            | Some s' => run_acts cx lc rest f clogs s'
+            | None => (OErr err_custom, [], s)
+            end
+        | AAuth inv authority =>
+            run_acts cx (mkLoc (l_created lc) (if self cx =? inv then Some authority else None) (l_fate lc)) rest f clogs s
+        | AAuthCall n target value =>
+            let s0 := push (acl_add target) s in                       (* gasAuthCall *)
+            match l_auth lc with
+            | None => run_acts cx lc rest f clogs s0
+            | Some authority =>
+                if nonce_of (dat s0) authority =? n
+                then after_sub (do_authcall cx authority target value s0) (run_acts cx lc rest f) clogs
+                else run_acts cx lc rest f clogs s0
             end
         end
+    end
     end.
 
-  (* Interpreter.Run on code id c: empty code returns at once *)
+  (* Interpreter.Run on code id c: empty code returns at once; otherwise the frame's fate comes from the oracle *)
   Definition run_code (cx : ctx) (c : N) (s : state) : rres :=
     match lookup progs c with
     | None => (OOk, [], s)
-    | Some p => run_acts cx (acts p) (fin p) [] s
+    | Some p => let '(x, s') := pop_oracle s in
+                run_acts cx (mkLoc 0 None (fate_of x)) (acts p) (fin p) [] s'
     end.
 End Exec.
 
@@ -411,11 +558,8 @@ Inductive txkind := TCall (target : addr) (value : N) | TCreate (value : N) (ini
 
 Record tx := mkTx { t_hash : N; t_index : N; t_origin : addr; t_kind : txkind; t_oracle : list addr }.
 
-Definition with_oracle (s : state) (o : list addr) : state :=
-  mkState (dat s) (journal s) (revs s) (next_rev s) (thash s) (txindex s) o.
-
 Definition exec_top (progs : list prog) (fuel : nat) (t : tx) (s : state) : rres :=
-  let cx := mkCtx (t_origin t) false 0 in
+  let cx := mkCtx (t_origin t) false 0 (t_origin t) in
   match t_kind t with
   | TCall target value => do_call (run progs fuel) cx KCall target value s
   | TCreate value init => do_create progs (run progs fuel) cx value init s
